@@ -49,3 +49,37 @@ package funnel
 //verif:ensures[shortcut] old(w.nackCount) == 0 ==> winSt(w) == old(winSt(w)) && win_clean(winSt(w))
 //verif:hint lemma_iter_inert(old(winSt(w)), false) && unfold_win_iter(old(winSt(w)), false, 1) && unfold_win_iter(old(winSt(w)), false, 0) && lemma_cnt_zero_all(arr(w.window), len(w.window))
 //verif:modifies w.cursor, w.nackCount, w.ackCount, w.window[*]
+
+// ---- multiAckNacker (C01, C04, C07): fan-out tally under m.mu --------------
+
+//verif:def mLens(m) = len(m.terminal) == len(m.positions) && len(m.acked) == len(m.positions) && len(m.ackVotes) == len(m.positions) && len(m.record) == len(m.positions) && len(m.nackErr) == len(m.positions) && len(m.nackTaskID) == len(m.positions) && base(m.terminal) != base(m.acked)
+//verif:def mInv(m) = mLens(m) && 0 <= m.released && m.released <= len(m.positions) && (forall i in [0, m.released): m.terminal[i]) && (forall i in [0, len(m.positions)): 0 <= m.ackVotes[i] && (m.terminal[i] && m.acked[i] ==> m.ackVotes[i] == m.branches) && (!m.terminal[i] ==> m.ackVotes[i] < m.branches))
+
+//verif:func (*multiAckNacker).ackBatch(m, from, to) (b)
+//verif:requires 0 <= from && from <= to && to <= len(m.positions) && to <= len(m.record)
+//verif:ensures[fresh] fresh(b) && b != nil
+//verif:ensures[window] b.positions == m.positions[from:to] && len(b.records) == to - from && len(b.recordStatuses) == to - from
+//verif:modifies nothing
+
+//verif:func (*multiAckNacker).nackBatch(m, idx) (b)
+//verif:requires 0 <= idx && idx < len(m.positions) && idx < len(m.record) && idx < len(m.nackErr)
+//verif:ensures[fresh] fresh(b) && b != nil
+//verif:ensures[single] len(b.positions) == 1 && b.positions[0] == m.positions[idx] && len(b.records) == 1 && len(b.recordStatuses) == 1 && b.tainted
+//verif:modifies nothing
+
+//verif:func (*multiAckNacker).releaseLocked(m, ctx) (err)
+//verif:requires mInv(m)
+//verif:ensures[inv] mInv(m)
+//verif:ensures[forward] m.released >= old(m.released)
+//verif:ensures[maximal] err == nil ==> m.released == len(m.positions) || !m.terminal[m.released]
+//verif:modifies m.released
+//verif:call-preserves ackNacker.Ack : all(m), m.terminal[*], m.ackVotes[*], m.positions[*], m.nackTaskID[*], m.nackErr[*] because "the parent of a multiAckNacker is the acker it was created with (Worker, runAckNacker or an outer multiAckNacker); the ackNacker graph is a tree, so no parent holds a reference to m or to the slices m owns"
+//verif:call-preserves ackNacker.Nack : all(m), m.terminal[*], m.ackVotes[*], m.positions[*], m.nackTaskID[*], m.nackErr[*] because "see ackNacker.Ack"
+//verif:call[ack-unanimous] ackNacker.Ack requires len(arg1.positions) > 0 && arg1.positions == m.positions[m.released : m.released + len(arg1.positions)] && m.released + len(arg1.positions) <= len(m.positions) && forall k in [0, len(arg1.positions)): m.terminal[m.released + k] && m.acked[m.released + k] && m.ackVotes[m.released + k] == m.branches
+//verif:call[nack-at-cursor] ackNacker.Nack requires len(arg1.positions) == 1 && arg1.positions[0] == m.positions[m.released] && m.terminal[m.released] && !m.acked[m.released]
+//verif:loop 0 invariant mInv(m) && m.released >= old(m.released)
+//verif:loop 0 invariant m.positions == old(m.positions) && m.terminal == old(m.terminal) && m.acked == old(m.acked) && m.branches == old(m.branches)
+//verif:loop 1 vars to
+//verif:loop 1 invariant m.released <= to && to <= len(m.positions) && m.released < len(m.positions) && forall k in [m.released, to): m.terminal[k] && m.acked[k]
+//verif:loop 1 invariant m.terminal[m.released] && m.acked[m.released]
+//verif:loop 1 decreases len(m.positions) - to
